@@ -16,11 +16,15 @@ TRUSTED = [
 VARIANTS = {
     'ref_multi': ['VH_PROTO=0', 'VH_POLICY=0'],
     'val_single': ['VH_PROTO=1', 'VH_POLICY=1'],
+    # the event key is read from the (by-value, movable) payload by a getEvent policy
+    'keyfrompayload_gxx': ['VH_PROTO=2', 'VH_POLICY=0'],
+    'keyfrompayload_clang': ['VH_PROTO=2', 'VH_POLICY=1'],
 }
+COMPILER = {'keyfrompayload_clang': 'clang++'}
 
 
 def build_variants(ctx, names):
-    specs = [dict(name='q_' + n, src='queue.cpp', defs=VARIANTS[n]) for n in names]
+    specs = [dict(name='q_' + n, src='queue.cpp', defs=VARIANTS[n], compiler=COMPILER.get(n, 'g++')) for n in names]
     res = vlib.build_many(ctx, specs)
     bins = {}
     for n in names:
